@@ -632,6 +632,30 @@ func nameSets() []*Set {
 			{Path: []int32{4, 0}, Span: []int32{4, 0, 6, 1}, LeadingComments: proto.String("go:generate echo hello\n")},
 		}}
 	})
+	// a oneof wrapper type whose natural Go name is taken by a nested message (protoc-gen-go appends "_")
+	mk("names-wrapper-vs-nested", "nwrap", func(f *fileB, pkg string) {
+		m := newMsg("."+pkg, "M")
+		a := newMsg(m.full, "A")
+		a.add(field("v", 1, kindSpec{t: tInt32}))
+		m.nest(a)
+		oi := m.oneof("x")
+		m.add(inOneof(field("a", 1, kindSpec{t: tSint32}), oi))
+		m.add(inOneof(field("b", 2, kindSpec{t: tMessage, name: a.full}), oi))
+		m.add(field("plain", 3, kindSpec{t: tMessage, name: a.full}))
+		f.msg(m)
+	})
+	// generated package-level variables are named after message and field: A{B_c} and A.B{c} must not collide
+	mk("names-var-collide", "nvar", func(f *fileB, pkg string) {
+		a := newMsg("."+pkg, "A")
+		b := newMsg(a.full, "B")
+		b.add(field("c", 1, kindSpec{t: tString}))
+		b.add(repeated(field("d", 2, kindSpec{t: tInt32})))
+		a.nest(b)
+		a.add(field("B_c", 1, kindSpec{t: tString}))
+		a.add(field("B_d", 2, kindSpec{t: tMessage, name: b.full}))
+		a.add(field("b", 3, kindSpec{t: tMessage, name: b.full}))
+		f.msg(a)
+	})
 	// message / enum names that need Go-name mangling
 	mk("names-mangle", "nmangle", func(f *fileB, pkg string) {
 		f.enum(enum("lower_enum", "lower_zero", 0, "lower_one", 1))
@@ -654,6 +678,63 @@ func nameSets() []*Set {
 		b.addMap("snake_case_map", 2, tString, kindSpec{t: tMessage, name: n.full})
 		f.msg(b)
 	})
+	// Go packages named like the packages the generated code imports itself (fmt, io, runtime, math, sort, binary,
+	// protoreflect, proto, sync, reflect, protoiface, protoimpl), used from one file in every field shape
+	{
+		std := []string{"fmt", "io", "runtime", "math", "sort", "binary", "protoreflect", "proto", "sync", "reflect", "protoiface", "protoimpl"}
+		var files []*fileB
+		user := newFile("npuser", "user", "vf.names.pkgs.user")
+		um := newMsg(".vf.names.pkgs.user", "User")
+		oi := um.oneof("pick")
+		var members []*descriptorpb.FieldDescriptorProto
+		for i, n := range std {
+			pf := &fileB{f: &descriptorpb.FileDescriptorProto{
+				Name: proto.String("zzgen/np" + n + "/" + n + ".proto"), Package: proto.String("vf.names.pkgs." + n), Syntax: proto.String("proto3"),
+				Options: &descriptorpb.FileOptions{GoPackage: proto.String(goPkgPath("np"+n) + ";" + n)},
+			}}
+			pm := newMsg(".vf.names.pkgs."+n, "T")
+			pm.add(field("v", 1, kindSpec{t: tString}))
+			pm.add(repeated(field("nums", 2, kindSpec{t: tSfixed64})))
+			pm.addMap("m", 3, tInt32, kindSpec{t: tDouble})
+			pf.msg(pm)
+			pf.enum(enum("Kind", "KIND_ZERO", 0, "KIND_ONE", 1))
+			files = append(files, pf)
+			user.dep(pf.f.GetName())
+			tk := kindSpec{t: tMessage, name: ".vf.names.pkgs." + n + ".T"}
+			ek := kindSpec{t: tEnum, name: ".vf.names.pkgs." + n + ".Kind"}
+			switch i % 4 {
+			case 0:
+				um.add(field("s_"+n, int32(10*i+1), tk))
+			case 1:
+				um.add(repeated(field("r_"+n, int32(10*i+1), tk)))
+			case 2:
+				um.addMap("m_"+n, int32(10*i+1), tString, tk)
+			case 3:
+				members = append(members, inOneof(field("o_"+n, int32(10*i+1), tk), oi))
+			}
+			um.add(repeated(field("e_"+n, int32(10*i+2), ek)))
+		}
+		for _, mf := range members { // oneof members must be declared consecutively
+			um.add(mf)
+		}
+		user.msg(um)
+		files = append(files, user)
+		sets = append(sets, simpleSet("names-std-package-names", files...))
+	}
+	// an unusual file name and an empty proto package
+	{
+		wf := &fileB{f: &descriptorpb.FileDescriptorProto{
+			Name: proto.String("zzgen/nfile/My-File.v1.2.proto"), Syntax: proto.String("proto3"),
+			Options: &descriptorpb.FileOptions{GoPackage: proto.String(goPkgPath("nfile") + ";nfile")},
+		}}
+		wm := newMsg("", "NoPackageMsg")
+		wm.add(field("v", 1, kindSpec{t: tString}))
+		wm.add(field("again", 2, kindSpec{t: tMessage, name: ".NoPackageMsg"}))
+		wm.add(repeated(field("kinds", 3, kindSpec{t: tEnum, name: ".NoPackageEnum"})))
+		wf.msg(wm)
+		wf.enum(enum("NoPackageEnum", "NP_ZERO", 0, "NP_ONE", 1))
+		sets = append(sets, simpleSet("names-odd-file-name", wf))
+	}
 	return sets
 }
 
